@@ -13,7 +13,7 @@ R2=$(cargo test --offline --doc 2>&1 | grep -E "^test result|error(\[|:)" | head
 cd /; git -C /repo worktree remove --force "$W/wt"; rm -rf "$W"
 echo "lib tests w/ patch : $R1"
 echo "doc tests w/ patch : $R2"
-git -C /repo apply "$D/patch.diff" && (cd /verif && ./check ALL 2>&1 | grep -v " 0 new finding" > /tmp/eval-checks.txt); git -C /repo checkout -- . ; git -C /repo status --short | head -3
+git -C /repo apply "$D/patch.diff" && (cd /verif && ./check ALL 2>&1 | grep -v " 0 new finding" > /tmp/eval-checks.txt); git -C /repo apply -R "$D/patch.diff" 2>/dev/null || git -C /repo checkout -- . ; git -C /repo clean -fdq src; git -C /repo status --short | head -3
 cat /tmp/eval-checks.txt
 mkdir -p /verif/benign/$ID
 cp "$D/patch.diff" /verif/benign/$ID/patch.diff
